@@ -689,7 +689,9 @@ func c09Concurrent(w *simrt.World) {
 	nn := 2 + c.Intn(2, "nodes")
 	nslots := 1 + c.Intn(2, "tunnels")
 	per := 2 + c.Intn(4, "ops.per.node")
-	ttl := 30 * time.Second
+	ttl := []time.Duration{30 * time.Second, time.Second, 0}[c.Intn(3, "ttl")]
+	eff := c09EffTTL(ttl)
+	rounds := 1 + c.Intn(3, "rounds")
 	nodeIDs := c09NodeIDs(c, nn)
 	ids := c09Slots(c, nslots)
 	if ids[0] == "" {
@@ -700,109 +702,184 @@ func c09Concurrent(w *simrt.World) {
 		tid  int
 		rec  c09want
 	}
-	plans := make([][]pop, nn)
 	uniq := 0
-	for i := range plans {
-		for j := 0; j < per; j++ {
-			p := pop{tid: c.Intn(nslots, "op.tid")}
-			switch k := c.Intn(6, "op.kind"); {
-			case k <= 2:
-				p.kind = "lookup"
-			case k <= 4:
-				p.kind = "reg"
-				uniq++
-				p.rec = c09GenRec(c)
-				p.rec.MappingID += fmt.Sprintf("/u%d", uniq)
-				p.rec.TunnelID = ids[p.tid]
-				p.rec.SourceNodeID = nodeIDs[i]
-			default:
-				p.kind = "remove"
-			}
-			plans[i] = append(plans[i], p)
+	genReg := func(node, tid int) pop {
+		uniq++
+		p := pop{kind: "reg", tid: tid, rec: c09GenRec(c)}
+		p.rec.MappingID += fmt.Sprintf("/u%d", uniq)
+		p.rec.TunnelID = ids[tid]
+		p.rec.SourceNodeID = nodeIDs[node]
+		return p
+	}
+	// Every round: what the store holds when the concurrent phase begins, the per-node plans, who does the closing lookups.
+	//   plant 0: nothing new (round 0: an untouched store; later rounds: whatever the previous round left, lapsed)
+	//   plant 1: every id registered by a drawn node, then the whole waiting period passes: lapsed records nobody has read yet
+	//   plant 2: every id registered by a drawn node just before the phase (still waiting)
+	type round struct {
+		plant     int
+		plantNode []int
+		plantRec  []pop
+		plans     [][]pop
+		finalNode []int
+	}
+	var rs []round
+	for r := 0; r < rounds; r++ {
+		rd := round{plant: c.Intn(3, "round.plant"), plans: make([][]pop, nn)}
+		for t := 0; t < nslots; t++ {
+			pn := c.Intn(nn, "round.plant.node")
+			rd.plantNode = append(rd.plantNode, pn)
+			rd.plantRec = append(rd.plantRec, genReg(pn, t))
+			rd.finalNode = append(rd.finalNode, c.Intn(nn, "round.final.node"))
 		}
+		for i := range rd.plans {
+			for j := 0; j < per; j++ {
+				tid := c.Intn(nslots, "op.tid")
+				var p pop
+				switch k := c.Intn(6, "op.kind"); {
+				case k <= 2:
+					p = pop{kind: "lookup", tid: tid}
+				case k <= 4:
+					p = genReg(i, tid)
+				default:
+					p = pop{kind: "remove", tid: tid}
+				}
+				rd.plans[i] = append(rd.plans[i], p)
+			}
+		}
+		rs = append(rs, rd)
 	}
 	w.Probe("B.backend." + be)
 	cw := c09Build(w, be, nodeIDs, ttl)
 	defer cw.Close()
-	results := make([][]porcupine.Operation, nn)
-	bad := make([]string, nn)
-	var tasks []*simrt.Task
-	for i := 0; i < nn; i++ {
-		i := i
-		tasks = append(tasks, w.Spawn(fmt.Sprintf("node%d", i), func() {
-			n := cw.nodes[i]
-			for _, p := range plans[i] {
-				w.Yield("c09.invoke")
-				call := w.Stamp()
-				in := c09cin{Kind: p.kind, Tid: p.tid}
-				out := ""
-				switch p.kind {
-				case "reg":
-					in.Rec = c09Canon(p.rec)
-					if err := n.rt.RegisterWaitingTunnel(w.Ctx, p.rec.state()); err != nil {
-						out = "err:" + err.Error()
-					} else {
-						out = "ok"
-					}
-				case "remove":
-					n.rt.RemoveWaitingTunnel(w.Ctx, ids[p.tid])
-					out = "ok"
-				default:
-					got, err := n.rt.LookupWaitingTunnel(w.Ctx, ids[p.tid])
-					switch {
-					case got != nil:
-						out = "rec:" + c09Canon(c09want{got.TunnelID, got.MappingID, got.SecretKey, got.SourceNodeID, got.SourceClientID, got.TargetClientID, got.TargetHost, got.TargetPort})
-						if got.ExpiresAt.Sub(got.CreatedAt) != ttl {
-							bad[i] = fmt.Sprintf("lookup returned created=%v expires=%v: not one waiting period (%v) apart", got.CreatedAt, got.ExpiresAt, ttl)
-						}
-					case c09IsNone(err):
-						out = "none"
-					default:
-						out = "err:" + err.Error()
-					}
-				}
-				w.Yield("c09.return")
-				ret := w.Stamp()
-				results[i] = append(results[i], porcupine.Operation{ClientId: i, Input: in, Call: call, Output: out, Return: ret})
+	bad := ""
+	// one operation on one node, recorded for the linearizability check
+	do := func(client, node int, p pop) porcupine.Operation {
+		n := cw.nodes[node]
+		w.Yield("c09.invoke")
+		call := w.Stamp()
+		in := c09cin{Kind: p.kind, Tid: p.tid}
+		out := ""
+		switch p.kind {
+		case "reg":
+			in.Rec = c09Canon(p.rec)
+			if err := n.rt.RegisterWaitingTunnel(w.Ctx, p.rec.state()); err != nil {
+				out = "err:" + err.Error()
+			} else {
+				out = "ok"
 			}
-		}))
+		case "remove":
+			n.rt.RemoveWaitingTunnel(w.Ctx, ids[p.tid])
+			out = "ok"
+		default:
+			got, err := n.rt.LookupWaitingTunnel(w.Ctx, ids[p.tid])
+			switch {
+			case got != nil:
+				out = "rec:" + c09Canon(c09want{got.TunnelID, got.MappingID, got.SecretKey, got.SourceNodeID, got.SourceClientID, got.TargetClientID, got.TargetHost, got.TargetPort})
+				if got.ExpiresAt.Sub(got.CreatedAt) != eff {
+					bad = fmt.Sprintf("lookup returned created=%v expires=%v: not one waiting period (%v) apart", got.CreatedAt, got.ExpiresAt, eff)
+				}
+			case c09IsNone(err):
+				out = "none"
+			default:
+				out = "err:" + err.Error()
+			}
+		}
+		w.Yield("c09.return")
+		return porcupine.Operation{ClientId: client, Input: in, Call: call, Output: out, Return: w.Stamp()}
 	}
-	for _, t := range tasks {
-		t.Wait()
-	}
-	var hist []porcupine.Operation
-	for i := range results {
-		hist = append(hist, results[i]...)
-		if bad[i] != "" {
-			w.Violationf("C09:fidelity:times:"+be, "%s", bad[i])
+	var sample []string
+	for r, rd := range rs {
+		startClass := "fresh-store"
+		if r > 0 {
+			// the previous round's records lapse; they are still physically in the backend until something reclaims them
+			w.Sleep(eff + 307*time.Millisecond)
+			startClass = "after-lapse"
+		}
+		var hist []porcupine.Operation
+		switch rd.plant {
+		case 1:
+			for t := 0; t < nslots; t++ {
+				do(nn, rd.plantNode[t], rd.plantRec[t])
+			}
+			w.Sleep(eff + 307*time.Millisecond)
+			startClass = "after-lapse"
+			w.Probe("B.round.planted-lapsed")
+		case 2:
+			for t := 0; t < nslots; t++ {
+				hist = append(hist, do(nn, rd.plantNode[t], rd.plantRec[t]))
+			}
+			if startClass == "fresh-store" {
+				startClass = "preregistered"
+			}
+			w.Probe("B.round.planted-live")
+		}
+		w.Probe("B.round." + startClass)
+		t0 := time.Now()
+		results := make([][]porcupine.Operation, nn)
+		var tasks []*simrt.Task
+		for i := 0; i < nn; i++ {
+			i := i
+			tasks = append(tasks, w.Spawn(fmt.Sprintf("node%d.r%d", i, r), func() {
+				for _, p := range rd.plans[i] {
+					results[i] = append(results[i], do(i, i, p))
+				}
+			}))
+		}
+		for _, t := range tasks {
+			t.Wait()
+		}
+		for i := range results {
+			hist = append(hist, results[i]...)
+		}
+		// closing lookups: after everything returned, the table must be in a state some sequential order explains
+		for t := 0; t < nslots; t++ {
+			hist = append(hist, do(nn, rd.finalNode[t], pop{kind: "lookup", tid: t}))
+		}
+		if bad != "" {
+			w.Violationf("C09:fidelity:times:"+be, "%s", bad)
+			return
+		}
+		if time.Since(t0) > 0 {
+			w.Probe("B.round.clock-moved") // not expected: no operation takes simulated time
+			continue
+		}
+		overlap := false
+		for i := range hist {
+			for j := range hist {
+				if hist[i].ClientId != hist[j].ClientId && hist[i].Input.(c09cin).Tid == hist[j].Input.(c09cin).Tid &&
+					hist[i].Call < hist[j].Return && hist[j].Call < hist[i].Return &&
+					(hist[i].Input.(c09cin).Kind != "lookup" || hist[j].Input.(c09cin).Kind != "lookup") {
+					overlap = true
+				}
+			}
+		}
+		if overlap {
+			w.Nontrivial()
+			w.Probe("B.overlap")
+			if startClass == "after-lapse" {
+				w.Probe("B.overlap.after-lapse")
+			}
+		}
+		w.State(fmt.Sprintf("B|%s|%s|overlap=%v", be, startClass, overlap))
+		sort.Slice(hist, func(i, j int) bool { return hist[i].Call < hist[j].Call })
+		var lines []string
+		for _, h := range hist {
+			who := fmt.Sprintf("n%d", h.ClientId)
+			if h.ClientId == nn {
+				who = "seq"
+			}
+			lines = append(lines, fmt.Sprintf("%s [%d,%d] %s(t%d %s)→%s", who, h.Call, h.Return, h.Input.(c09cin).Kind, h.Input.(c09cin).Tid, h.Input.(c09cin).Rec, h.Output))
+		}
+		sample = append(sample, fmt.Sprintf("round %d (%s): %s", r, startClass, strings.Join(tailStr(lines, 8), " ; ")))
+		if porcupine.CheckOperations(c09LinModel(), hist) {
+			w.Probe("B.linearizable")
+		} else {
+			w.Violationf("C09:linearizability:"+startClass+":"+be, "round %d (store at the start of the round: %s; waiting period %v): the concurrent register/lookup/remove history from %d nodes plus the closing lookups has no sequential explanation (a lookup returned a record that was not the current one, a lapsed one, or missed a registered one):\n%s",
+				r, startClass, eff, nn, strings.Join(lines, "\n"))
 			return
 		}
 	}
-	overlap := false
-	for i := range hist {
-		for j := range hist {
-			if hist[i].ClientId != hist[j].ClientId && hist[i].Input.(c09cin).Tid == hist[j].Input.(c09cin).Tid &&
-				hist[i].Call < hist[j].Return && hist[j].Call < hist[i].Return &&
-				(hist[i].Input.(c09cin).Kind != "lookup" || hist[j].Input.(c09cin).Kind != "lookup") {
-				overlap = true
-			}
-		}
-	}
-	if overlap {
-		w.Nontrivial()
-		w.Probe("B.overlap")
-	}
-	sort.Slice(hist, func(i, j int) bool { return hist[i].Call < hist[j].Call })
-	var lines []string
-	for _, h := range hist {
-		lines = append(lines, fmt.Sprintf("n%d [%d,%d] %s(t%d %s)→%s", h.ClientId, h.Call, h.Return, h.Input.(c09cin).Kind, h.Input.(c09cin).Tid, h.Input.(c09cin).Rec, h.Output))
-	}
-	if porcupine.CheckOperations(c09LinModel(), hist) {
-		w.Probe("B.linearizable")
-	} else {
-		w.Violationf("C09:linearizability:"+be, "concurrent register/lookup/remove history from %d nodes has no sequential explanation (a lookup returned a record that was not the current one, or missed one):\n%s", nn, strings.Join(lines, "\n"))
-	}
-	w.Sample(fmt.Sprintf("B %s nodes=%d: %s", be, nn, strings.Join(tailStr(lines, 10), " ; ")))
+	w.Sample(fmt.Sprintf("B %s nodes=%d ttl=%v rounds=%d: %s", be, nn, ttl, rounds, strings.Join(sample, " | ")))
 }
 
 // ---- mode C: real SessionManagers, bridge lifecycle, polling lookup --------
@@ -1401,10 +1478,10 @@ func init() {
 	Register(&Scenario{
 		ID:    "C09",
 		Level: "exploration",
-		Rule: "each run draws a mode. (A, 4/8) 2-3 nodes with real RoutingTables over one shared backend drawn from {memory, redis(miniredis), tiered hybrid with shared redis, tiered hybrid with shared memory, or the same plan on memory+redis+tiered compared outcome by outcome}; waiting period drawn from {30s, 1s, 0=default}; 1-5 tunnel ids and all record fields from a hostile valid-UTF-8 generator (empty, 1 byte, 64 KiB, NUL, U+2028, JSON text, quotes/backslashes, key-like text) and int64/int extremes; a plan of 8-35 operations register / lookup / remove / clock advance (never within 2 ms of an expiry) / RegisterNodeAddress / GetNodeAddress from drawn nodes, optionally storage failures on drawn operations and a caller that edits its own struct after Register returned; each lookup is compared field by field and instant by instant with a reference table (resolves iff registered, not removed, now < registration + waiting period). " +
-			"(B, 1/8) one task per node issues 2-5 register/lookup/remove operations on 1-2 ids concurrently, interleaved at every storage operation and every statement of routing.go; the history is checked for linearizability. " +
-			"(C, 3/8) one real SessionManager per node with a stub mapping directory; 1-3 tunnels opened through the real startSourceBridge on drawn nodes at drawn instants (optionally the same tunnel id opened again through another node), ending by the 30 s bridge timeout, bridge close, target-ready then close, crash of the source node (its storage handle is fenced), a close issued by a second task as soon as the bridge exists (possibly before startSourceBridge has returned), or a graceful shutdown of the source node's SessionManager; the delay before an end is drawn from {0 = same simulated instant, so the end races at statement granularity with whatever the open left running, 11 ms, 403 ms, 3.1 s, 12.3 s}; 3 ms after every lifecycle end every live node looks the id up directly (must not resolve); 1-4 target-side calls of the real polling lookupTunnelRouting on drawn nodes at drawn instants; 1-6 checkpoints (drawn instants between 5 ms and 62 s) where every live node looks every id up directly; optional storage faults (deletes fail with probability 1/2, or reads fail with probability 1/4); in the tail, after all lifecycles ended and all waiting periods lapsed, no node may resolve any id, including through a replayed polling lookup. " +
-			"Non-trivial: (A) a lookup from a node other than the registering one resolved AND the history contains a removal or expiry of a registered id or a re-registration from another node; (B) two operations of different nodes on the same id overlapped, at least one a write; (C) a lookup from a node other than the source node resolved AND at least one tunnel lifecycle ended before the run's tail. Distinct = distinct schedule hashes / abstract states (backend x waiting-count x resolves x duplicates).",
+		Rule: "each run draws a mode. (A, 4/9) 2-3 nodes with real RoutingTables over one shared backend drawn from {memory, redis(miniredis), tiered hybrid with shared redis, tiered hybrid with shared memory, or the same plan on memory+redis+tiered compared outcome by outcome}; waiting period drawn from {30s, 1s, 0=default}; 1-5 tunnel ids and all record fields from a hostile valid-UTF-8 generator (empty, 1 byte, 64 KiB, NUL, U+2028, JSON text, quotes/backslashes, key-like text) and int64/int extremes; a plan of 8-35 operations register / lookup / remove / clock advance (never within 2 ms of an expiry) / RegisterNodeAddress / GetNodeAddress from drawn nodes, optionally storage failures on drawn operations and a caller that edits its own struct after Register returned; each lookup is compared field by field and instant by instant with a reference table (resolves iff registered, not removed, now < registration + waiting period). " +
+			"(B, 2/9) 1-3 rounds on one world (backend and waiting period {30s,1s,default} drawn): before a round the store is drawn from {left as is, every id registered by a drawn node and the whole waiting period then passes so lapsed records lie unread in the backend, every id registered just before}; between rounds the whole waiting period passes (the previous round's records lapse in place); in a round one task per node issues 2-5 register/lookup/remove operations on 1-2 ids concurrently, interleaved at every lock, storage operation and statement of routing.go and of the backends, followed by one sequential closing lookup per id from a drawn node; each round's history (pre-registrations + concurrent operations + closing lookups, starting from 'nothing resolves') is checked for linearizability. " +
+			"(C, 3/9) one real SessionManager per node with a stub mapping directory; 1-3 tunnels opened through the real startSourceBridge on drawn nodes at drawn instants (optionally the same tunnel id opened again through another node), ending by the 30 s bridge timeout, bridge close, target-ready then close, crash of the source node (its storage handle is fenced), a close issued by a second task as soon as the bridge exists (possibly before startSourceBridge has returned), or a graceful shutdown of the source node's SessionManager; the delay before an end is drawn from {0 = same simulated instant, so the end races at statement granularity with whatever the open left running, 11 ms, 403 ms, 3.1 s, 12.3 s}; 3 ms after every lifecycle end every live node looks the id up directly (must not resolve); 1-4 target-side calls of the real polling lookupTunnelRouting on drawn nodes at drawn instants; 1-6 checkpoints (drawn instants between 5 ms and 62 s) where every live node looks every id up directly; optional storage faults (deletes fail with probability 1/2, or reads fail with probability 1/4); in the tail, after all lifecycles ended and all waiting periods lapsed, no node may resolve any id, including through a replayed polling lookup. " +
+			"Non-trivial: (A) a lookup from a node other than the registering one resolved AND the history contains a removal or expiry of a registered id or a re-registration from another node; (B) two operations of different nodes on the same id overlapped, at least one a write; (C) a lookup from a node other than the source node resolved AND at least one tunnel lifecycle ended before the run's tail. Distinct = distinct schedule hashes / abstract states (backend x waiting-count x resolves x duplicates; for B backend x state of the store at round start x overlap).",
 		Real: []string{"internal/protocol/session/tunnel RoutingTable (Register/Lookup/RemoveWaitingTunnel, Register/GetNodeAddress)", "internal/protocol/session SessionManager.startSourceBridge, runBridgeLifecycle, lookupTunnelRouting, tunnel.Bridge (Start/Close/NotifyTargetReady)",
 			"internal/core/storage/memory", "internal/core/storage/redis over go-redis", "internal/core/storage/hybrid (DefaultConfig, shared cache)", "miniredis (real command + TTL semantics) in the bubble"},
 		Stub: []string{"CloudControlAPI: a map of PortMappings", "TCP between go-redis and Redis: net.Pipe; Redis TTL clock driven from the simulated clock", "source/target connections of the bridge: none (nil conn/stream; readiness is signalled by NotifyTargetReady)", "node crash: the node's storage handle is fenced and its tasks unwind at their next storage operation"},
@@ -1416,11 +1493,11 @@ func init() {
 }
 
 func c09Run(w *simrt.World, tier string) {
-	switch m := w.C.Intn(8, "mode"); {
+	switch m := w.C.Intn(9, "mode"); {
 	case m <= 3:
 		w.Probe("mode.A.sequential")
 		c09Sequential(w)
-	case m == 4:
+	case m <= 5:
 		w.Probe("mode.B.concurrent")
 		c09Concurrent(w)
 	default:
